@@ -10,6 +10,8 @@ import (
 	"go.pennock.tech/tabular/html"
 	"go.pennock.tech/tabular/json"
 	"go.pennock.tech/tabular/markdown"
+	"go.pennock.tech/tabular/properties"
+	"go.pennock.tech/tabular/properties/align"
 	"go.pennock.tech/tabular/texttable"
 	"go.pennock.tech/tabular/texttable/decoration"
 
@@ -97,8 +99,9 @@ func (a *c14Snap) diff(b *c14Snap) string {
 }
 
 type c14Case struct {
-	Table   gen.TableSpec `json:"table"`
-	Renders []string      `json:"render_sequence"`
+	Table    gen.TableSpec `json:"table"`
+	Settings []string      `json:"column_settings"`
+	Renders  []string      `json:"render_sequence"`
 }
 
 func c14Run(c *Ctx, i int, r *gen.R) {
@@ -109,13 +112,45 @@ func c14Run(c *Ctx, i int, r *gen.R) {
 				return r.AnyItem(c10Fam, 4, 1)
 			case 1:
 				return c04Item(r)
+			case 2:
+				return gen.StrItem("")
+			case 3:
+				return gen.ItemSpec{K: "nil"}
 			}
 			return r.TextItem(c10Fam, 5)
 		}})
+	if r.Chance(1, 2) {
+		// headers every renderer accepts (JSON needs unique non-empty keys for every column)
+		spec.HasHeader = true
+		spec.Header = nil
+		for k := 0; k < spec.NCols(); k++ {
+			spec.Header = append(spec.Header, gen.StrItem(fmt.Sprintf("key%d", k+1)))
+		}
+		if spec.HeaderAt > len(spec.Rows) {
+			spec.HeaderAt = len(spec.Rows)
+		}
+	}
 	cs := &c14Case{Table: spec}
 	c.Case = cs
 	t := tabular.New()
 	b := spec.Build(t)
+	// renderer-relevant settings: alignment and skipable, on column 0 and on columns
+	if r.Chance(1, 2) {
+		for n := 0; n <= t.NColumns(); n++ {
+			if a := r.Intn(4); a != 0 {
+				t.Column(n).SetProperty(align.PropertyType, alignVals[a])
+				cs.Settings = append(cs.Settings, fmt.Sprintf("column %d alignment %s", n, alignNames[a]))
+			}
+		}
+	}
+	if r.Chance(1, 2) {
+		for n := 0; n <= t.NColumns(); n++ {
+			if v := r.Intn(3); v != 0 {
+				t.Column(n).SetProperty(properties.Skipable, v == 1)
+				cs.Settings = append(cs.Settings, fmt.Sprintf("column %d skipable %v", n, v == 1))
+			}
+		}
+	}
 
 	// user properties, placed before the first render on table, columns, rows and cells
 	var props []c14Prop
@@ -253,7 +288,7 @@ func init() {
 	register(&Prop{
 		ID:    "C14",
 		Level: "exploration",
-		Rule: "one random table per case (as in C10) with user properties placed before the first render on the table, on 2/3 of the columns incl. column 0, on every row, on half of the cells (up to 3 keys each) and on a cell that received 3 properties before it was added (so its chain is shared with the caller's variable), plus one recorded error; then a random sequence of 5-30 renders drawn from 9 non-text renderers (reused and fresh csv/html/json/markdown wrappers, html with cached template, caption and generator) and 2 text renderers per registered decoration (one reused wrapper switched between decorations, auto.Render). " +
+		Rule: "one random table per case (as in C10, with empty and nil cells, half of the tables with unique non-empty headers so that JSON renders, half with a random alignment assignment and half with a random skipable assignment on column 0 and the columns) with user properties placed before the first render on the table, on 2/3 of the columns incl. column 0, on every row, on half of the cells (up to 3 keys each) and on a cell that received 3 properties before it was added (so its chain is shared with the caller's variable), plus one recorded error; then a random sequence of 5-30 renders drawn from 9 non-text renderers (reused and fresh csv/html/json/markdown wrappers, html with cached template, caption and generator) and 2 text renderers per registered decoration (one reused wrapper switched between decorations, auto.Render). " +
 			"Each output must equal the first of its format; after every render the snapshot (NRows, NColumns, every cell's text, item identity and location, row locations, header texts, error list identities) and all user properties must be unchanged. Distinct = distinct (table, render sequence); non-trivial = at least 2 formats rendered.",
 		Assumptions: []string{
 			"no user callback fails or mutates (the statement's proviso)",
